@@ -502,7 +502,7 @@ func processInitSegment(log *slog.Logger, ch *channel, s stream, data []byte, is
 			return nil, fmt.Errorf("failed to write original init segment: %w", err)
 		}
 	}
-	iSeg, err := mp4.DecodeFileSR(sr)
+	iSeg, err := decodeInitSegment(sr)
 	if err != nil {
 		return nil, fmt.Errorf("failed to decode init segment: %w", err)
 	}
@@ -517,6 +517,17 @@ func processInitSegment(log *slog.Logger, ch *channel, s stream, data []byte, is
 		return nil, fmt.Errorf("failed to encode wvtt init segment: %w", err)
 	}
 	return sw.Bytes(), nil
+}
+
+// decodeInitSegment decodes an uploaded init segment. mp4ff v0.47 dereferences missing boxes of a moov box
+// (no trak, mdia, minf, stbl or stts) while decoding; an upload must not be able to crash the handler that way.
+func decodeInitSegment(sr bits.SliceReader) (f *mp4.File, err error) {
+	defer func() {
+		if r := recover(); r != nil {
+			f, err = nil, fmt.Errorf("malformed init segment: %v", r)
+		}
+	}()
+	return mp4.DecodeFileSR(sr)
 }
 
 func handleMPD(w http.ResponseWriter, req *http.Request, storage, chName string) {
